@@ -243,7 +243,7 @@ from pvc.state import is_insert_where, comp_eq            # noqa: E402
 
 UNP, UMB = "us.nameplates", "us.mailboxes"
 CLOSE_MOD = [MS, MB, MSG, NP, NS, UNP, UMB, "in_tx.ch", "in_tx.us", "heap.Mailbox._listeners",
-             "heap.AppNamespace._mailboxes"]
+             "heap.AppNamespace._mailboxes", "heap.WebSocketServer._mailbox", "heap.WebSocketServer._listening"]
 c = contract("server.Mailbox.close", cls="Mailbox", params={"side": "str", "mood": "optstr", "when": "real"},
              modifies=CLOSE_MOD, tags=["C01", "C06", "C07", "C08", "C09", "C10", "C13", "C14", "C15", "C16", "C17"])
 
@@ -261,6 +261,13 @@ def _(c):
     yield "clean", I.Clean(S)
     app = S.heap["Mailbox._app"][c.self_ref]
     yield "app_consistent", And(app != 0, S.heap["AppNamespace._app_id"][app] == c.sf("_app_id"))
+    from . import heapinv as HI
+    yield "GH5", HI.GH5(S)
+    yield "GH4", HI.GH4(S)
+    from .appnamespace import registry_wf
+    yield "registry_wf", registry_wf(S, app)
+    yield "registered", S.heap["AppNamespace._mailboxes"][app][c.sf("_mailbox_id")] == c.self_ref
+    yield "app_registered", S.heap["Server._apps"][H.SERVER][c.sf("_app_id")] == app
 
 
 def unchanged_all(c, comps):
@@ -326,7 +333,19 @@ def _(c):
     r0, r1 = S0.heap["AppNamespace._mailboxes"], S1.heap["AppNamespace._mailboxes"]
     yield "registry", Implies(dele, And(ls1 == Store(ls0, me, K(INT, BoolVal(False))),
                                         r1 == Store(r0, app, Store(r0[app], m, 0)))), ["C02", "C08"]
+    # every connection that was still subscribed to a deleted mailbox drops its handle (F5 repair);
+    # nobody else's connection state changes
+    cm0, cm1 = S0.heap["WebSocketServer._mailbox"], S1.heap["WebSocketServer._mailbox"]
+    cl0, cl1 = S0.heap["WebSocketServer._listening"], S1.heap["WebSocketServer._listening"]
+    yield "subscribers_dropped", If(dele,
+                                    And(FA([INT], lambda h: cm1[h] == If(ls0[me][h], 0, cm0[h]), pats=lambda h: [cm1[h]]),
+                                        FA([INT], lambda h: cl1[h] == If(ls0[me][h], False, cl0[h]), pats=lambda h: [cl1[h]])),
+                                    And(cm1 == cm0, cl1 == cl0)), ["C02", "C08", "C13"]
     yield "committed", I.Clean(S1), ["C09"]
+    # H4/H5 (C02, C13, C01): nobody stays subscribed to a Mailbox object whose row is gone (F5)
+    from . import heapinv as HI
+    yield "preserves.GH5", HI.GH5(S1), ["C02", "C13", "C01"]
+    yield "preserves.GH4", HI.GH4(S1), ["C02", "C13", "C01"]
 
 
 def np_usage_rel(U0, U1, ns0, n, a, when):
@@ -354,6 +373,11 @@ def _(c, L):
     yield "untouched_before_first", Implies(L.k == 0, And(arrays_equal(E.t(NS), S.t(NS)), arrays_equal(E.t(UNP), S.t(UNP))))
 
 
-@c.loop(1, modifies=[], tags=["C08"])
+@c.loop(1, modifies=["heap.WebSocketServer._mailbox", "heap.WebSocketServer._listening"], tags=["C02", "C08", "C13"])
 def _(c, L):
-    yield "trivial", BoolVal(True)
+    """stop loop: every listener processed so far has dropped its handle; the others are untouched"""
+    E, S = L.entry, c.post
+    for f in ("_mailbox", "_listening"):
+        e, s_ = E.heap["WebSocketServer." + f], S.heap["WebSocketServer." + f]
+        reset = IntVal(0) if f == "_mailbox" else BoolVal(False)
+        yield "done_dropped." + f, FA([INT], lambda h: s_[h] == If(L.done(h), reset, e[h]), pats=lambda h: [s_[h]])
